@@ -19,11 +19,11 @@ def c02_shapes(tier):
 def c01_shapes(tier):
     # (nrules, class1, class2, class3, k)
     if tier == 'quick':
-        return [(1, 0, 0, 0, 3), (1, 3, 0, 0, 2), (1, 6, 0, 0, 3), (2, 0, 7, 0, 2), (1, 5, 0, 0, 2)]
+        return [(1, 0, 0, 0, 3), (1, 3, 0, 0, 2), (1, 6, 0, 0, 3), (2, 0, 7, 0, 2), (1, 5, 0, 0, 2), (2, 7, 7, 0, 2)]
     out = []
     for c in range(10):
         out.append((1, c, 0, 0, 3))
-    for a, b in [(0, 3), (2, 6), (1, 8), (5, 9), (4, 7)]:
+    for a, b in [(0, 3), (2, 6), (1, 8), (5, 9), (4, 7), (8, 8), (9, 9), (0, 1), (3, 3)]:
         out.append((2, a, b, 0, 3))
     out.append((3, 0, 3, 7, 3))
     out.append((1, 0, 0, 0, 4))
